@@ -5,13 +5,18 @@ class C20(Spec):
     prop = "C20"
     drv = "drv_c20"
     harness = "h_c20"
-    required_theorems = ("C20.calcWork_antitone",)
+    required_theorems = ("C20.calcWork_antitone", "C20.recompact_value", "C20.recompact_idem",
+                         "C20.big_roundtrip_partial", "C20.big_roundtrip_sharp", "C20.big_roundtrip_full_false",
+                         "C20.td_monotone", "C20.td_antitone")
+    partial = ("C20.big_roundtrip_partial",)
+    refuted = ("C20.big_roundtrip_full_false",)
     level_text = ("Lean theorems about the model of CompactToBig/BigToCompact/CalcWork (work antitone in the target; "
                   "re-compaction canonical; round trip keeps the mantissa precision) for all inputs; the model is tied to "
                   "common/difficulty by a byte-exact differential run over every exponent x sign x mantissa edges, random "
                   "compacts and integers of byte length 0..300.")
-    level_note = ("math/big behaves as Lean Int; bit operations modelled as div/mod; integers of >= 255 bytes are outside the "
-                  "8-bit exponent field (documented limit, targets are <= 2^256).")
+    level_note = ("math/big behaves as Lean Int; bit operations modelled as div/mod; for integers of >= 255 bytes the exponent "
+                  "overflows its 8-bit field: the full round-trip statement is refuted in Lean (big_roundtrip_full_false, witness "
+                  "2^2039 replayed from corpus/C20) and proved with the bound byteLen <= 254 (big_roundtrip_partial); targets are <= 2^256.")
     assumptions = (
         "math/big arithmetic behaves as Lean Int/Nat arithmetic",
         "bit operations of difficulty.go are modelled as div/mod by powers of two; the tie is the differential run",
